@@ -71,6 +71,6 @@ Q_Both    == BOOLEAN
 Q_No      == {FALSE}
 D_None    == {}
 D_Quiet   == {"quiet_stale_errno"}
-F_Small   == {<<>>, <<81>>, <<112, 200>>}
+F_Small   == {<<>>, <<81>>, <<112, 129>>}
 F_Two     == {<<>>, <<112>>}
 =============================================================================
